@@ -15,6 +15,7 @@ Good(ev) ==
              \/ ev.op = "ToDF"       /\ ToDF
              \/ ev.op = "ToAN"       /\ ToAN
              \/ ev.op = "DfPut"      /\ DfPut(a.type, a.target, a.len, a.k)
+             \/ ev.op = "DfOther"    /\ DfOther(a.type, a.target, a.len, a.k)
              \/ ev.op = "DfAddFile"  /\ DfAddFile(a.type, a.len, a.k)
              \/ ev.op = "DfGet"      /\ DfGet(a.type, a.target)
                                      \* what was read is one of the object's annotations
